@@ -277,6 +277,12 @@ def configure_env(v, shape=None):
     return env
 
 
+# names of the source directory itself: characters Make passes through but
+# the shell interprets
+SRC_NAMES = ['src', 'src', 'src', 'R&D', 'a(b)c', 'x<y>z', 'b`t', 'q"q']
+
+NINJA_SRC_NAMES = ['src', 'a(b)c']
+
 TARGETS = ['p1', 'p2', 'p3', 'p3s', 'p4.out', 'p14', 'lnk/src.lnk',
            'lnk/bld.lnk', 'prog', 'all', 'test', 'install']
 
@@ -284,7 +290,9 @@ TARGETS = ['p1', 'p2', 'p3', 'p3s', 'p4.out', 'p14', 'lnk/src.lnk',
 def run_template(backend, v, shape, tmp):
     """Returns (status, logs) where logs = {target: [invocation...]} and
     status = {'configure': Result, target: Result}."""
-    src = os.path.join(tmp, 'src')
+    # (the source directory's own name may need quoting for the shell; the
+    # logs show it as @ROOT@/src whatever it is called)
+    src = os.path.join(tmp, (shape or {}).get('srcname', 'src'))
     bld = os.path.join(tmp, 'bld')
     os.makedirs(src)
     render(src, v, shape)
@@ -304,7 +312,7 @@ def run_template(backend, v, shape, tmp):
         log = os.path.join(tmp, 'log.' + t.replace('/', '_'))
         e = dict(benv, VF_LOG=log)
         status[t] = sandbox.run_backend(backend, bld, e, [t])
-        logs[t] = decode_log(sandbox.read_log(log), tmp)
+        logs[t] = decode_log(sandbox.read_log(log), tmp, src)
         if t == 'p3s':
             # the two sides of the pipe run concurrently: order-insensitive
             logs[t].sort(key=lambda e: e['argv'])
@@ -315,12 +323,17 @@ def _unhex(h):
     return bytes.fromhex(h).decode('utf-8', 'surrogateescape')
 
 
-def decode_log(entries, tmp):
+def decode_log(entries, tmp, src=None):
     out = []
     root = os.path.realpath(tmp)
+    srcs = [os.path.realpath(src), src] if src else []
+
+    def norm(a):
+        for s_ in srcs:
+            a = a.replace(s_, '@ROOT@/src')
+        return a.replace(root, '@ROOT@').replace(tmp, '@ROOT@')
     for e in entries:
-        argv = [_unhex(a).replace(root, '@ROOT@').replace(tmp, '@ROOT@')
-                for a in e['argv']]
+        argv = [norm(_unhex(a)) for a in e['argv']]
         env = {k: _unhex(val) for k, val in e['env'].items()
                if k.startswith('VFENV')}
         out.append({'tool': e['tool'], 'argv': argv, 'env': env})
@@ -353,6 +366,8 @@ def inactive(shape):
 
 
 def baseline(backend, shape):
+    # (the reference run always lives in a plainly named source directory)
+    shape = {k: v for k, v in (shape or {}).items() if k != 'srcname'}
     key = (backend, json.dumps(shape, sort_keys=True))
     if key not in _baseline_cache:
         with sandbox.scratch('argb') as tmp:
@@ -432,10 +447,24 @@ def compare(backend, values, shape, status, logs):
     if status['configure'].rc != 0:
         return (None, 'configure failed: ' +
                 status['configure'].err.strip()[-600:])
+    def okey(argv):
+        if '-o' in argv[:-1]:
+            return (argv[0], argv[argv.index('-o') + 1])
+        if argv and argv[0] == 'ar' and len(argv) > 2:
+            return (argv[0], argv[2])
+        return (argv[0] if argv else '', '\0'.join(argv))
     for t in TARGETS:
         want = base[t]
         got = logs.get(t, [])
         st_ = status.get(t)
+        if backend == 'ninja' and (shape or {}).get('srcname', 'src') != 'src' \
+                and t != 'p3s':
+            # independent steps are started in the order of their path names,
+            # which the name of the source directory is part of: compare the
+            # processes step by step, not position by position
+            want = sorted(want, key=lambda w_: okey(
+                [substitute(a, values) for a in w_['argv']]))
+            got = sorted(got, key=lambda g_: okey(g_['argv']))
         for i, w in enumerate(want):
             exp_argv = [substitute(a, values) for a in w['argv']]
             exp_env = {k: substitute(val, values)
@@ -571,7 +600,9 @@ def ownership_violation(backend, shape):
     exactly the options the script gave to it (its own plus the global ones),
     in particular nothing inherited from another target."""
     logs = baseline(backend, shape)
-    missing = _baseline_missing[(backend, json.dumps(shape, sort_keys=True))]
+    missing = _baseline_missing[(backend, json.dumps(
+        {k: v_ for k, v_ in (shape or {}).items() if k != 'srcname'},
+        sort_keys=True))]
     if missing:
         return ('the script gives arguments in positions {} but they reached '
                 'no process at all'.format(
@@ -712,13 +743,20 @@ def cases(draw):
             'shape': {'wrap_children': draw(st.booleans()),
                       'link_globals': draw(st.integers(0, 3)) > 0,
                       'yacc_one_first': draw(st.booleans()),
-                      'symlink_src_first': draw(st.booleans())}}
+                      'symlink_src_first': draw(st.booleans()),
+                      'srcname': draw(st.sampled_from(SRC_NAMES))}}
 
 
 def make_prop(rec, backend):
     def prop(case):
         values = dict(case['values'])
         shape = case['shape']
+        if backend == 'ninja' and shape.get('srcname', 'src') not in \
+                NINJA_SRC_NAMES:
+            # (the compiler writes the source path into the dependency file;
+            # Ninja's depfile syntax has no spelling for these characters,
+            # which is between the compiler and Ninja)
+            shape = dict(shape, srcname='src')
         # steer around open known findings (count what was excluded)
         for pid, val in list(values.items()):
             for ch in specials(val, backend):
